@@ -5,6 +5,7 @@
 //   visit zoo       stdout: ndjson, one line per instance
 #include <algorithm>
 #include <cxxabi.h>
+#include <functional>
 #include <iostream>
 #include <set>
 #include <typeinfo>
@@ -94,27 +95,72 @@ namespace {
 #undef LEAF
    };
 
+   Value visit_event(const ipr::Node& n, const std::string& how)
+   {
+      Recorder rec;
+      n.accept(rec);
+      SinksOnly so;
+      n.accept(so);
+      Nested ne;
+      n.accept(ne);
+      auto ev = Value::object();
+      ev.set("nestdepth", Nested::Limit + 1).set("nested", ne.own).set("strays", ne.other).set("innerviews", ne.inner);
+      auto hooks = Value::array();
+      for (auto& hk : rec.hooks) hooks.push(hk);
+      ev.set("e", "visit").set("impl", demangle(typeid(n).name())).set("how", how)
+         .set("cat", vh::cat_name(n.category)).set("hooks", hooks).set("entries", rec.entries).set("views", views_of(n))
+         .set("sink", so.sink);
+      return ev;
+   }
+
    int do_zoo()
    {
-      Zoo z;
-      z.build();
-      for (auto& p : z.all) {
-         const ipr::Node& n = *p.first;
-         Recorder rec;
-         n.accept(rec);
-         SinksOnly so;
-         n.accept(so);
-         Nested ne;
-         n.accept(ne);
-         auto ev = Value::object();
-         ev.set("nestdepth", Nested::Limit + 1).set("nested", ne.own).set("strays", ne.other).set("innerviews", ne.inner);
-         auto hooks = Value::array();
-         for (auto& hk : rec.hooks) hooks.push(hk);
-         ev.set("e", "visit").set("impl", demangle(typeid(n).name())).set("how", p.second)
-            .set("cat", vh::cat_name(n.category)).set("hooks", hooks).set("entries", rec.entries).set("views", views_of(n))
-            .set("sink", so.sink);
-         std::cout << vj::dump(ev) << "\n";
+      {
+         Zoo z;
+         z.build();
+         for (auto& p : z.all) std::cout << vj::dump(visit_event(*p.first, p.second)) << "\n";
       }
+      // A node that takes the place of another: a Lexicon with one node of kind A is asked everything and destroyed, then a second
+      // Lexicon builds one node of kind B, which the allocator usually puts where the first one was.  What was learnt about the
+      // first node says nothing about the second.
+      using Make = std::function<const ipr::Node*(impl::Lexicon&)>;
+      std::vector<std::pair<std::string, Make>> kinds {
+         { "Identifier", [](impl::Lexicon& lx) -> const ipr::Node* { return &lx.get_identifier(u8"reuse"); } },
+         { "Operator", [](impl::Lexicon& lx) -> const ipr::Node* { return &lx.get_operator(u8"reuse"); } },
+         { "Suffix", [](impl::Lexicon& lx) -> const ipr::Node* { return &lx.get_suffix(static_cast<const ipr::Identifier&>(lx.int_type().name())); } },
+         { "Conversion", [](impl::Lexicon& lx) -> const ipr::Node* { return &lx.get_conversion(lx.int_type()); } },
+         { "Ctor_name", [](impl::Lexicon& lx) -> const ipr::Node* { return &lx.get_ctor_name(lx.int_type()); } },
+         { "Dtor_name", [](impl::Lexicon& lx) -> const ipr::Node* { return &lx.get_dtor_name(lx.int_type()); } },
+         { "Pointer", [](impl::Lexicon& lx) -> const ipr::Node* { return &lx.get_pointer(lx.int_type()); } },
+         { "Reference", [](impl::Lexicon& lx) -> const ipr::Node* { return &lx.get_reference(lx.int_type()); } },
+         { "Rvalue_reference", [](impl::Lexicon& lx) -> const ipr::Node* { return &lx.get_rvalue_reference(lx.int_type()); } },
+         { "As_type", [](impl::Lexicon& lx) -> const ipr::Node* { return &lx.get_as_type(lx.false_value()); } },
+         { "Phantom", [](impl::Lexicon& lx) -> const ipr::Node* { return lx.make_phantom(); } },
+         { "Break", [](impl::Lexicon& lx) -> const ipr::Node* { return lx.make_break(); } },
+         { "Continue", [](impl::Lexicon& lx) -> const ipr::Node* { return lx.make_continue(); } },
+         { "Address", [](impl::Lexicon& lx) -> const ipr::Node* { return lx.make_address(lx.false_value()); } },
+         { "Not", [](impl::Lexicon& lx) -> const ipr::Node* { return lx.make_not(lx.false_value()); } },
+      };
+      long same = 0, pairs = 0;
+      for (auto& a : kinds)
+         for (auto& b : kinds) {
+            if (a.first == b.first) continue;
+            const void* where = nullptr;
+            {
+               impl::Lexicon lx;
+               auto n = a.second(lx);
+               where = n;
+               (void)visit_event(*n, "");
+            }
+            impl::Lexicon lx;
+            auto n = b.second(lx);
+            ++pairs;
+            bool coincide = static_cast<const void*>(n) == where;
+            if (coincide) ++same;
+            std::cout << vj::dump(visit_event(*n, std::string(coincide ? "in the place of" : "after") + " a destroyed " + a.first)) << "\n";
+         }
+      std::cerr << "{\"e\":\"note\",\"what\":\"nodes built where a destroyed node of another kind was\",\"pairs\":" << pairs
+                << ",\"same_address\":" << same << "}\n";
       return 0;
    }
 }
